@@ -42,3 +42,6 @@ pub use crate::types::{InflightBlocks, InflightState};
 
 #[cfg(feature = "verif-hooks")]
 pub use crate::relayer::{ReconstructionResult, verif_compact_block_verify};
+
+#[cfg(feature = "verif-hooks")]
+pub use crate::relayer::{verif_block_transactions_verify, verif_block_uncles_verify};
